@@ -11,7 +11,7 @@ from sx.harness import Shape, under, zv
 from sx.shims import STUBS  # noqa
 
 ID = 'C07'
-BUDGET_S = {'quick': 280, 'thorough': 2400}
+BUDGET_S = {'quick': 280, 'thorough': 3600}
 SHAPE_WALL_S = {'quick': 240, 'thorough': 900}
 FAMILY = ('UNIT: parse_expression(text).get_value(scope) where text is rendered with minimal parentheses from an '
           'enumerated operator tree (<= 2 binary operators quick / <= 3 thorough, unary minus, LSB/BYTEn at operand '
@@ -439,9 +439,9 @@ def shapes(tier, seed):
     if tier != 'quick':
         t3 = trees(3)
         rnd.shuffle(t3)
-        for t in t3[:1500]:
+        for t in t3[:4000]:
             add('op3', t)
-        for t in t3[1500:2300]:
+        for t in t3[4000:5500]:
             add('dec3', decorate(t, rnd))
     for i, txt in enumerate(MALFORMED):
         S.append(MalformedShape(f'malformed:{i}:{txt}', text=txt))
